@@ -521,3 +521,48 @@ func mustPassUnless(o *an.Obl, f *an.Func, what string, through []an.Site, mode 
 		}
 	}
 }
+
+// mustDoUnless: every path from the entry of f to one of the targets passes
+// one of the sites, except paths that take an edge establishing one of the
+// allowed skip facts. This is the dual of `guarded`: an action that must
+// happen unless a stated condition exempts it (an added condition around the
+// action is reported).
+func mustDoUnless(o *an.Obl, f *an.Func, what string, sites []an.Site, targets []an.Site, skips ...an.Fact) {
+	mustDoUnlessFrom(o, f, nil, what, sites, targets, skips...)
+}
+
+// mustDoUnlessFrom is mustDoUnless for the paths that start at vertex from
+// (nil = function entry); targets not reachable from there are ignored.
+func mustDoUnlessFrom(o *an.Obl, f *an.Func, from *flow.Vertex, what string, sites []an.Site, targets []an.Site, skips ...an.Fact) {
+	if len(sites) == 0 {
+		o.FailAt(f.ID+"#no-"+what, f.Where(f.Body.Pos()), "%s not found in %s", what, f.ID)
+		return
+	}
+	cut := flow.EdgeSet{}
+	var descs []string
+	for _, s := range skips {
+		descs = append(descs, s.Desc)
+		for e := range f.EdgesOf(s) {
+			cut[e] = true
+		}
+	}
+	stop := map[*flow.Vertex]bool{}
+	for _, s := range sites {
+		stop[s.V] = true
+	}
+	g := f.Graph()
+	if from == nil {
+		from = g.Entry
+	}
+	reach := g.Reach(from, cut, stop)
+	after := g.Reach(from, nil, nil)
+	for _, t := range targets {
+		if !after[t.V] {
+			continue
+		}
+		o.Site("%s happens before %s unless [%s]", what, t.String(), strings.Join(descs, " | "))
+		if reach[t.V] && !stop[t.V] {
+			o.FailAt(constructOf(f, t)+"<-skips-"+what, t.Where(), "%s can be reached without %s although none of [%s] holds", t.String(), what, strings.Join(descs, " | "))
+		}
+	}
+}
